@@ -153,6 +153,8 @@ class C14(common.Spec):
                          cnt=edzed.Counter('cnt', persistent=True))
             SlowInit('slowinit', init_timeout=20)
             SlowStop('slowstop', stop_timeout=20)
+            if abort_how in ('ctrl_shutdown', 'ctrl_abort'):
+                edzed.Event('_ctrl', 'shutdown')          # makes the control block exist
             crashed = []
             if abort_how == 'simerror':
                 # a failure inside the simulation task itself: a combinational block cannot be evaluated
@@ -198,6 +200,12 @@ class C14(common.Spec):
                     dests['p'].event('boom')
                 except RuntimeError:
                     pass
+            elif abort_how == 'ctrl_shutdown':
+                # a 'shutdown' event to the control block; the sends of the next phase follow in the
+                # same loop iteration
+                edzed.ExtEvent(circuit.findblock('_ctrl'), 'shutdown').send()
+            elif abort_how == 'ctrl_abort':
+                edzed.ExtEvent(circuit.findblock('_ctrl'), 'abort').send(error=RuntimeError('abort event'))
             elif abort_how == 'simerror':
                 trig.event('put', value=13)
                 for _ in range(50):
@@ -298,7 +306,7 @@ class C14(common.Spec):
 def gen_cases(run):
     rng = run.rng
     cases = []
-    scenarios = ['shutdown', 'abort', 'handler', 'simerror']
+    scenarios = ['shutdown', 'abort', 'handler', 'simerror', 'ctrl_shutdown', 'ctrl_abort']
     n_per = 5 if run.tier == 'quick' else 150
     for scen in scenarios:
         for ph in PHASES:
